@@ -152,3 +152,119 @@ fn verif_native_c08_ntv2_deepest() {
     }
     assert!(fails.is_empty(), "C08.N.ntv2.deepest: {} of {} lattice queries wrong, first: {:?}", fails.len(), n, &fails[..fails.len().min(4)]);
 }
+
+// ---------------------------------------------------------------------------------------------
+// generated NTv2 files: non-square cells, both byte orders
+// ---------------------------------------------------------------------------------------------
+fn put(buf: &mut Vec<u8>, big: bool, label: &str, val: &[u8]) {
+    let mut l = label.as_bytes().to_vec();
+    l.resize(8, b' ');
+    buf.extend_from_slice(&l);
+    let mut v = val.to_vec();
+    v.resize(8, 0);
+    let _ = big;
+    buf.extend_from_slice(&v);
+}
+fn f64b(x: f64, big: bool) -> [u8; 8] {
+    if big {
+        x.to_be_bytes()
+    } else {
+        x.to_le_bytes()
+    }
+}
+fn u32b(x: u32, big: bool) -> Vec<u8> {
+    if big {
+        x.to_be_bytes().to_vec()
+    } else {
+        x.to_le_bytes().to_vec()
+    }
+}
+// one sub grid: latitudes s..n step dlat (seconds of arc), west-positive longitudes e..w step dlon
+fn ntv2_file(big: bool, s: f64, n: f64, e: f64, w: f64, dlat: f64, dlon: f64) -> (Vec<u8>, usize, usize) {
+    let rows = ((n - s) / dlat).round() as usize + 1;
+    let cols = ((w - e) / dlon).round() as usize + 1;
+    let mut b = Vec::new();
+    put(&mut b, big, "NUM_OREC", &u32b(11, big));
+    put(&mut b, big, "NUM_SREC", &u32b(11, big));
+    put(&mut b, big, "NUM_FILE", &u32b(1, big));
+    put(&mut b, big, "GS_TYPE", b"SECONDS ");
+    put(&mut b, big, "VERSION", b"VERIF   ");
+    put(&mut b, big, "SYSTEM_F", b"A       ");
+    put(&mut b, big, "SYSTEM_T", b"B       ");
+    put(&mut b, big, "MAJOR_F", &f64b(6378137.0, big));
+    put(&mut b, big, "MINOR_F", &f64b(6356752.0, big));
+    put(&mut b, big, "MAJOR_T", &f64b(6378137.0, big));
+    put(&mut b, big, "MINOR_T", &f64b(6356752.0, big));
+    put(&mut b, big, "SUB_NAME", b"VERIF   ");
+    put(&mut b, big, "PARENT", b"NONE    ");
+    put(&mut b, big, "CREATED", b"        ");
+    put(&mut b, big, "UPDATED", b"        ");
+    put(&mut b, big, "S_LAT", &f64b(s, big));
+    put(&mut b, big, "N_LAT", &f64b(n, big));
+    put(&mut b, big, "E_LONG", &f64b(e, big));
+    put(&mut b, big, "W_LONG", &f64b(w, big));
+    put(&mut b, big, "LAT_INC", &f64b(dlat, big));
+    put(&mut b, big, "LONG_INC", &f64b(dlon, big));
+    put(&mut b, big, "GS_COUNT", &u32b((rows * cols) as u32, big));
+    // NTv2 node order: south to north, within a row east to west; value = (lat shift, lon shift west-positive) in arcsec
+    for r in 0..rows {
+        for c in 0..cols {
+            let lat = s + r as f64 * dlat;
+            let lonw = e + c as f64 * dlon;
+            let (vlat, vlon) = ((lat / 3600.0) as f32, (lonw / 3600.0) as f32); // shift = own coordinate in degrees, as arcsec
+            for v in [vlat, vlon, 0.0f32, 0.0f32] {
+                b.extend_from_slice(&if big { v.to_be_bytes() } else { v.to_le_bytes() });
+            }
+        }
+    }
+    put(&mut b, big, "END", &[0u8; 8]);
+    (b, rows, cols)
+}
+
+//@n {"id":"C15.N.ntv2.generated","props":["C15","C08"],"tier":"quick","bound":"generated single-sub-grid NTv2 files with square, tall (1 deg x 0.5 deg) and wide (0.5 deg x 1 deg) cells, in both byte orders; every node and every cell centre queried","text":"an NTv2 binary grid (either byte order) decodes to a grid whose geometry (borders, row and column spacing, counts) and node values are those written in the file after the documented conventions: seconds of arc -> radians, west-positive longitudes negated, latitude shift in band 1 / longitude shift in band 0; interpolation at nodes reproduces the node values"}
+#[test]
+fn verif_native_c15_ntv2_generated() {
+    let mut fails = Vec::new();
+    let mut n = 0;
+    let sec = |deg: f64| deg * 3600.0;
+    for (dlat, dlon) in [(1.0, 1.0), (1.0, 0.5), (0.5, 1.0)] {
+        for big in [false, true] {
+            // lat 54..56 N, lon 8..10 E == -8..-10 west-positive: E_LONG = -10 deg, W_LONG = -8 deg
+            let (file, rows, cols) = ntv2_file(big, sec(54.0), sec(56.0), sec(-10.0), sec(-8.0), sec(dlat), sec(dlon));
+            let tag = format!("cells {dlat}x{dlon} {}", if big { "big-endian" } else { "little-endian" });
+            let g = match Ntv2Grid::new(&file) {
+                Ok(g) => g,
+                Err(e) => {
+                    fails.push(format!("{tag}: does not decode: {e:?}"));
+                    continue;
+                }
+            };
+            let b = g.subgrids.get("VERIF").expect("sub grid by name");
+            let close = |a: f64, b: f64| (a - b).abs() < 1e-12;
+            if !(b.rows == rows && b.cols == cols && close(b.lat_n, 56f64.to_radians()) && close(b.lat_s, 54f64.to_radians()) && close(b.lon_w, 8f64.to_radians()) && close(b.lon_e, 10f64.to_radians()) && close(b.dlat.abs(), dlat.to_radians()) && close(b.dlon.abs(), dlon.to_radians())) {
+                fails.push(format!("{tag}: geometry rows {} cols {} n {} s {} w {} e {} dlat {} dlon {}", b.rows, b.cols, b.lat_n.to_degrees(), b.lat_s.to_degrees(), b.lon_w.to_degrees(), b.lon_e.to_degrees(), b.dlat.to_degrees(), b.dlon.to_degrees()));
+                continue;
+            }
+            // query every node (strictly inside or on lower borders; NTv2 excludes the upper borders) and cell centres
+            for r in 0..(2 * (rows - 1)) {
+                for c in 0..(2 * (cols - 1)) {
+                    let (lat, lon) = (54.0 + r as f64 * dlat / 2.0, 8.0 + c as f64 * dlon / 2.0);
+                    let p = Coor4D::geo(lat, lon, 0.0, 0.0);
+                    n += 1;
+                    match g.at(&p, 0.0) {
+                        Some(v) => {
+                            // node value = its own coordinates (west-positive longitude) / 3600 arcsec; bilinear => same formula anywhere
+                            let elat = (lat / 3600.0f64).to_radians(); // `lat` arcsec written in the file
+                            let elon = (lon / 3600.0f64).to_radians(); // the file holds -lon arcsec (west-positive), negated on decoding
+                            if (v[1] - elat).abs() > 1e-6 * elat.abs() || (v[0] - elon).abs() > 1e-6 * elon.abs() { // node values are f32
+                                fails.push(format!("{tag}: at ({lat}, {lon}) got (lat {:.6e}, lon {:.6e}), expected ({elat:.6e}, {elon:.6e})", v[1], v[0]));
+                            }
+                        }
+                        None => fails.push(format!("{tag}: no value at ({lat}, {lon}) inside the grid")),
+                    }
+                }
+            }
+        }
+    }
+    assert!(fails.is_empty(), "C15.N.ntv2.generated: {} failures in {} queries, first: {:?}", fails.len(), n, &fails[..fails.len().min(4)]);
+}
